@@ -126,7 +126,9 @@ def run(args):
     res = run_pool([build.obs], reqs, NCPU, timeout=90)
     table = {}
     for (ci, vi, mode, t), r in zip(index, res):
-        if "panic" in r or "exit" in r or "timeout" in r:
+        if "timeout" in r:
+            obs = None                   # no answer within the pool's limit (load): not compared
+        elif "panic" in r or "exit" in r:
             obs = ("crash",)
         elif mode == "parse":
             obs = (r.get("err"), tuple(r.get("nodes") or []))
@@ -138,6 +140,9 @@ def run(args):
     for ci, (kind, parts, vs) in enumerate(cases):
         dist["kind"][kind] = dist["kind"].get(kind, 0) + 1
         base_t, base_parse = table[(ci, 0, "parse")]
+        if base_parse is None:
+            dist["base_outcome"]["slow"] = dist["base_outcome"].get("slow", 0) + 1
+            continue
         dist["base_outcome"][str(base_parse[0])] = dist["base_outcome"].get(str(base_parse[0]), 0) + 1
         for vi, (vk, _) in enumerate(vs, start=1):
             n_var += 1
@@ -145,6 +150,8 @@ def run(args):
             for mode in ("parse", "tab", "vis"):
                 t, obs = table[(ci, vi, mode)]
                 b = table[(ci, 0, mode)][1]
+                if obs is None or b is None:
+                    continue
                 if obs != b:
                     what = {"parse": "the parsed statement", "tab": "the tabular export", "vis": "the visual export"}[mode]
                     d = None
